@@ -1066,6 +1066,8 @@ def check(ctx):
                     len(r1) == len(r2) and all(near(x, y) for x, y in zip(r1, r2)) for r1, r2 in zip(mv, allv)) and len(mv) == len(allv)
                 if not same:
                     ctx.disagree("hedge", case, allv, mv)
+    import ext_featreg
+    ext_featreg.run(ctx, g)          # the registry behind feature names (Model/FeatReg, op feat_reg)
     return ctx.finish(
         rule="features: all registered features + Barrier(up/down, threshold tied to a path value) + Ones + log variants + ModuleOutput over "
              "Brownian/Heston/Merton/LocalVol underliers x 4 option types on dyadic injected buffers (ties, zero/negative variance), steps {0,T-1,random}; "
